@@ -2,6 +2,7 @@ package main
 
 import (
 	"fmt"
+	"go/ast"
 	"go/constant"
 	"go/token"
 	"go/types"
@@ -268,6 +269,31 @@ func checkC12(p *Prog, r *Result, tier string) {
 		}
 		if fn.Signature.Recv() != nil && named(fn.Signature.Recv().Type()) == a.Schema && fn.Signature.Results().Len() == 1 && types.TypeString(fn.Signature.Results().At(0).Type(), nil) == "string" {
 			allowed[name] = true
+		}
+	}
+	// a helper whose every caller is allowed is part of those functions (the suffix handling moved into a helper)
+	byName := map[string]*ssa.Function{}
+	for _, fn := range p.Funcs {
+		byName[FuncName(fn)] = fn
+	}
+	for changed := true; changed; {
+		changed = false
+		for _, rd := range readers {
+			fn := byName[rd]
+			if allowed[rd] || fn == nil || fn.Parent() != nil || ast.IsExported(fn.Name()) {
+				continue
+			}
+			callers := callersOf(fn)
+			all := len(callers) > 0
+			for _, g := range callers {
+				if !allowed[FuncName(g)] {
+					all = false
+				}
+			}
+			if all {
+				allowed[rd] = true
+				changed = true
+			}
 		}
 	}
 	var extra []string
@@ -725,6 +751,12 @@ func compileValidated(p *Prog, g *ssa.Function, depth int) *ssa.BasicBlock {
 // callersPrevalidate: every sod (non-test) caller g of fn has a validation block (given by find) from which the call
 // to fn is reachable but which is not reachable from the call (validation happens first). Returns a reason or "".
 func callersPrevalidate(p *Prog, fn *ssa.Function, find func(g *ssa.Function) *ssa.BasicBlock) string {
+	return callersPrevalidateDepth(p, fn, find, 3)
+}
+
+// a caller that does not validate itself is accepted when every one of its own callers does (the construct moved into
+// a helper of the function that used to contain it)
+func callersPrevalidateDepth(p *Prog, fn *ssa.Function, find func(g *ssa.Function) *ssa.BasicBlock, depth int) string {
 	var callers []string
 	for _, g := range p.Funcs {
 		for _, gb := range g.Blocks {
@@ -738,6 +770,12 @@ func callersPrevalidate(p *Prog, fn *ssa.Function, find func(g *ssa.Function) *s
 				}
 				vb := find(g)
 				if vb == nil {
+					if depth > 0 {
+						if why := callersPrevalidateDepth(p, g, find, depth-1); why != "" && why != "no caller in the package" {
+							callers = append(callers, FuncName(g)+" <- "+why)
+							continue
+						}
+					}
 					return ""
 				}
 				if !blockReaches(vb, gb) || blockReaches(gb, vb) {
